@@ -81,42 +81,44 @@ Definition ip_len_of_family (family : N) : N := if family =? familyIPv6 then 16 
 Definition copy_zero (n : N) (src : list byte) : list byte :=
   take n src ++ repeatN 0 (n - lenN src).
 
-(* XORMappedAddress.GetFromAs (xoraddr.go:89), as on the tree: [fixed] selects where the
-   len(value) <= 4 test stands.  false = pinned tree (family is read from value[0:2] BEFORE the
+(* XORMappedAddress.GetFromAs (xoraddr.go:89) on the value view, as on the tree: [fixed] selects where
+   the len(value) <= 4 test stands.  false = pinned tree (family is read from value[0:2] BEFORE the
    length test: the re-slice is bounded by capacity, so it reads past a short value or panics);
    true = after the fix: commit (length test first). *)
+Definition xor_read (fixed : bool) (value : slice) (tid : list byte) : outcome (list byte * N) :=
+  if fixed && (len value <=? 4) then Err E_EOF else
+  fam_s <- reslice value 0 2 ;;
+  family <- s_u16 fam_s ;;
+  if negb (family =? familyIPv6) && negb (family =? familyIPv4) then Err E_FAMILY else
+  let ipLen := ip_len_of_family family in
+  if len value <=? 4 then Err E_EOF else
+  if ipLen <? len value - 4 then Err E_OVERFLOW else
+  port_s <- reslice value 2 4 ;;
+  port <- s_u16 port_s ;;
+  let v4 := take (len value - 4) (drop 4 (arr value)) in
+  Ok (copy_zero ipLen (xor_bytes v4 (xor_pad tid)), N.lxor port 0x2112).
+
 Definition get_xor_addr_gen (fixed : bool) (m : msg) (t : N) : outcome (list byte * N) :=
   match get m t with
   | None => Err E_NOT_FOUND
-  | Some a =>
-    let value := a_val a in
-    if fixed && (len value <=? 4) then Err E_EOF else
-    fam_s <- reslice value 0 2 ;;
-    family <- s_u16 fam_s ;;
-    if negb (family =? familyIPv6) && negb (family =? familyIPv4) then Err E_FAMILY else
-    let ipLen := ip_len_of_family family in
-    if len value <=? 4 then Err E_EOF else
-    if ipLen <? len value - 4 then Err E_OVERFLOW else
-    port_s <- reslice value 2 4 ;;
-    port <- s_u16 port_s ;;
-    let v4 := take (len value - 4) (drop 4 (arr value)) in
-    Ok (copy_zero ipLen (xor_bytes v4 (xor_pad (m_tid m))), N.lxor port 0x2112)
+  | Some a => xor_read fixed (a_val a) (m_tid m)
   end.
 
-(* MappedAddress.GetFromAs (addr.go:67) *)
+(* MappedAddress.GetFromAs (addr.go:67) on the value view *)
+Definition mapped_read (value : slice) : outcome (list byte * N) :=
+  if len value <=? 4 then Err E_EOF else
+  fam_s <- reslice value 0 2 ;;
+  family <- s_u16 fam_s ;;
+  if negb (family =? familyIPv6) && negb (family =? familyIPv4) then Err E_FAMILY else
+  let ipLen := ip_len_of_family family in
+  port_s <- reslice value 2 4 ;;
+  port <- s_u16 port_s ;;
+  Ok (copy_zero ipLen (take (len value - 4) (drop 4 (arr value))), port).
+
 Definition get_mapped_addr (m : msg) (t : N) : outcome (list byte * N) :=
   match get m t with
   | None => Err E_NOT_FOUND
-  | Some a =>
-    let value := a_val a in
-    if len value <=? 4 then Err E_EOF else
-    fam_s <- reslice value 0 2 ;;
-    family <- s_u16 fam_s ;;
-    if negb (family =? familyIPv6) && negb (family =? familyIPv4) then Err E_FAMILY else
-    let ipLen := ip_len_of_family family in
-    port_s <- reslice value 2 4 ;;
-    port <- s_u16 port_s ;;
-    Ok (copy_zero ipLen (take (len value - 4) (drop 4 (arr value))), port)
+  | Some a => mapped_read (a_val a)
   end.
 
 (* ------------------------------------------------------------------ ERROR-CODE *)
@@ -126,14 +128,14 @@ Definition add_error_code (m : msg) (code : N) (reason : list byte) : outcome ms
     add m AttrErrorCode ([0; 0; (code / 100) mod 256; (code mod 100) mod 256] ++ reason)
   else Err E_OVERFLOW.
 
+Definition errcode_read (value : slice) : outcome (N * list byte) :=
+  if len value <? 4 then Err E_EOF else
+  c <- idx value 2 ;; n <- idx value 3 ;;
+  Ok ((c * 100 + n) mod 65536, take (len value - 4) (drop 4 (arr value))).
 Definition get_error_code (m : msg) : outcome (N * list byte) :=
   match get m AttrErrorCode with
   | None => Err E_NOT_FOUND
-  | Some a =>
-    let value := a_val a in
-    if len value <? 4 then Err E_EOF else
-    c <- idx value 2 ;; n <- idx value 3 ;;
-    Ok ((c * 100 + n) mod 65536, take (len value - 4) (drop 4 (arr value)))
+  | Some a => errcode_read (a_val a)
   end.
 
 (* errorcode.go errorReasons *)
@@ -180,13 +182,14 @@ Fixpoint unknown_entries (fuel : nat) (esz : N) (v : list byte) : list N :=
   | O => []
   | S f => match v with [] => [] | _ => rd16 v :: unknown_entries f esz (drop esz v) end
   end.
+Definition unknown_read (esz : N) (value : slice) : outcome (list N) :=
+  let v := bytes value in
+  if negb (lenN v mod esz =? 0) then Err E_UNKNOWN_SIZE
+  else Ok (unknown_entries (N.to_nat (lenN v / 2 + 1)) esz v).
 Definition get_unknown_gen (esz : N) (m : msg) : outcome (list N) :=
   match get m AttrUnknownAttributes with
   | None => Err E_NOT_FOUND
-  | Some a =>
-    let v := bytes (a_val a) in
-    if negb (lenN v mod esz =? 0) then Err E_UNKNOWN_SIZE
-    else Ok (unknown_entries (N.to_nat (lenN v / 2 + 1)) esz v)
+  | Some a => unknown_read esz (a_val a)
   end.
 
 (* ------------------------------------------------------------------ MESSAGE-INTEGRITY *)
